@@ -317,6 +317,13 @@ Proof.
   destruct (p s); [exact Hp | now apply Hq | exact I].
 Qed.
 
+Lemma Inv_restore {A} (H : Bd A) (p : parser A) : Inv H p -> Inv H (p_restore p).
+Proof.
+  intros Hp off s r G Ho Hr Hb. unfold p_restore. specialize (Hp off s r G Ho Hr Hb).
+  destruct (p s) as [s1 a|e|]; cbn [postc] in *; [exact Hp | | exact I].
+  split; [apply St_refl, G | exact Hb].
+Qed.
+
 Lemma Inv_opt {A} (H : Bd A) (p : parser A) : Inv H p -> Inv (bd_opt H) (p_opt p).
 Proof.
   intros Hp off s r G Ho Hr Hb. unfold p_opt. specialize (Hp off s r G Ho Hr Hb).
@@ -461,7 +468,7 @@ Ltac inv_step HE :=
   | apply (Inv_peek_la _)
   | apply (Inv_ignore0 _); [la_last HE]
   | apply (Inv_ignore1 _); [la_last HE]
-  | apply (Inv_alt _) | apply (Inv_opt _) | apply (Inv_pair _) | apply (Inv_preceded _) | apply (Inv_terminated _)
+  | apply (Inv_restore _) | apply (Inv_alt _) | apply (Inv_opt _) | apply (Inv_pair _) | apply (Inv_preceded _) | apply (Inv_terminated _)
   | apply (Inv_many0 _) | apply (Inv_info _) | apply (Inv_expect _) | apply (Inv_ref _)
   | apply (Inv_confusable _)
   | eapply (Inv_map _); [ | bd_side ] ].
